@@ -119,9 +119,7 @@ theorem DwOut.stay {s : Sys} {t m preds ph tot} (hph : ph < 2) (ph' tot' : Nat) 
 
 theorem DwOut.start {s : Sys} {t m preds ph tot} (hph : ph < 2) (f : TaskRec → TaskRec) (tot' : Nat)
     (d : Time) (hf : GoodT f) :
-    DwOut s t m preds ph tot ({ (s.updTask t f) with starts := (s.updTask t f).starts ++ [t],
-                               active := (s.updTask t f).active ++ [(m, t)] },
-        .doWork t m preds 2 tot', .timeout d) :=
+    DwOut s t m preds ph tot ({ (s.updTask t f) with starts := (s.updTask t f).starts ++ [t], active := (s.updTask t f).active ++ [(m, t)] }, .doWork t m preds 2 tot', .timeout d) :=
   Or.inr (Or.inl ⟨hph, f, tot', d, hf, rfl⟩)
 
 theorem DwOut.fin {s : Sys} {t m preds ph tot} (hph : 2 ≤ ph) (f : TaskRec → TaskRec) (hf : GoodT f) :
